@@ -8,6 +8,7 @@ import (
 	"time"
 
 	"github.com/Nextdoor/pg-bifrost.git/replication/client/conn"
+	"github.com/jackc/pglogrepl"
 	"github.com/jackc/pgx/v5/pgconn"
 )
 
@@ -29,6 +30,7 @@ func connmgrRun(c Case) ([]string, []string) {
 	}
 	var m conn.ManagerInterface
 	hasConn := false // the manager holds a connection (live or not yet noticed as closed)
+	replConn := false // ... and it was opened with START_REPLICATION
 	seen := 0
 	newStarts := func() []uint64 {
 		deadline := time.Now().Add(500 * time.Millisecond)
@@ -80,8 +82,10 @@ func connmgrRun(c Case) ([]string, []string) {
 			case conns() == before:
 				outs = append(outs, "reuse")
 			case w[1] == "plain":
+				replConn = false
 				outs = append(outs, "dial")
 			default:
+				replConn = true
 				st := newStarts()
 				if len(st) != 1 {
 					outs = append(outs, fmt.Sprintf("starts=%v", st))
@@ -89,9 +93,42 @@ func connmgrRun(c Case) ([]string, []string) {
 					outs = append(outs, fmt.Sprintf("start:%d", st[0]))
 				}
 			}
+		case "status":
+			// C18 on the wire: a standby status update that SendStandbyStatus accepted must reach the server
+			// WITHOUT a further read by the client (while the client is blocked on its output channel it calls
+			// SendStandbyStatus at every ticker firing and does not read). Output: sent:<0|1> = it arrived within 500 ms.
+			if !hasConn || !replConn {
+				outs = append(outs, "noconn")
+				break
+			}
+			cn, err := m.GetConn(ctx)
+			if err != nil || cn == nil || cn.IsClosed() {
+				outs = append(outs, "noconn")
+				break
+			}
+			lsn, _ := strconv.ParseUint(w[2], 10, 64)
+			srv.mu.Lock()
+			before := srv.nstatus
+			srv.mu.Unlock()
+			if err := cn.SendStandbyStatus(ctx, pglogrepl.StandbyStatusUpdate{WALWritePosition: pglogrepl.LSN(lsn)}); err != nil {
+				outs = append(outs, "senderr")
+				break
+			}
+			arrived := "0"
+			for dl := time.Now().Add(500 * time.Millisecond); time.Now().Before(dl); time.Sleep(2 * time.Millisecond) {
+				srv.mu.Lock()
+				n := srv.nstatus
+				srv.mu.Unlock()
+				if n > before {
+					arrived = "1"
+					break
+				}
+			}
+			outs = append(outs, "sent:"+arrived)
 		case "close":
 			m.Close()
 			hasConn = false
+			replConn = false
 			outs = append(outs, "ok")
 		case "drop":
 			// the server side closes every connection; the client notices on its next use: make it
@@ -133,6 +170,15 @@ func connmgrGen(r *Rng, tier string) Case {
 				lsn = r.U64() >> uint(r.Intn(40))
 			}
 			lines = append(lines, fmt.Sprintf("connmgr repl %d", lsn))
+			// status updates: often the same position again at once (a keepalive reply right after a periodic
+			// update, with no progress in between) - every one of them must reach the server
+			pos := r.Range(1, 1<<20)
+			for r.Chance(60) {
+				if r.Chance(40) {
+					pos = r.Range(1, 1<<20)
+				}
+				lines = append(lines, fmt.Sprintf("connmgr status %d", pos))
+			}
 		case k < 6:
 			lines = append(lines, "connmgr plain")
 		case k < 8:
@@ -150,6 +196,11 @@ func connmgrMonitor(lines, outs []string, m *Model) []Violation {
 			break
 		}
 		w := strings.Fields(l)
+		if len(w) == 3 && w[1] == "status" && outs[i] == "sent:0" {
+			return []Violation{{"C18", "a standby status update accepted by the connection's SendStandbyStatus did not reach the server within 500 ms " +
+				"without a further read on the connection: while the client is blocked on its output channel (it sends at every ticker firing " +
+				"and does not read) PostgreSQL hears nothing and its walsender timeout drops the healthy connection", ""}}
+		}
 		if len(w) == 3 && w[1] == "repl" && strings.HasPrefix(outs[i], "start:") && outs[i] != "start:"+w[2] {
 			v := fmt.Sprintf("the connection manager was asked to (re)start replication at %s but sent START_REPLICATION at %s", w[2], outs[i][6:])
 			return []Violation{{"C03", v, ""}, {"C07", v, ""}}
